@@ -82,6 +82,15 @@ fn program(form: &str, a: &str, b: &str, rng: &mut Rng) -> String {
             "fn f(a: string, b: string) {{\n{}}}\nf({la}, {lb})\n",
             body("a", "b")
         ),
+        "tmp" => {
+            // operands are temporaries built at run time: once the instruction has popped them they are
+            // reachable from the thread's string_operand registers only
+            let (a1, a2) = split(a, rng);
+            let (b1, b2) = split(b, rng);
+            let x = format!("({} .. {})", abra_lit(&a1, rng), abra_lit(&a2, rng));
+            let y = format!("({} .. {})", abra_lit(&b1, rng), abra_lit(&b2, rng));
+            body(&x, &y)
+        }
         "heap" => {
             // both operands are built at run time, so they are heap strings, not static ones
             let (a1, a2) = split(a, rng);
@@ -105,6 +114,70 @@ fn program(form: &str, a: &str, b: &str, rng: &mut Rng) -> String {
             )
         }
     }
+}
+
+/// Run `src` one VM step at a time with the collector under manual control (hook `verif_gc`): after
+/// EVERY step of the main thread a complete collection cycle runs (Idle -> mark -> sweep -> Idle), so a
+/// whole collection falls between any two byte steps of an in-flight string instruction, when its
+/// operands may be reachable from `string_operand1/2` only.
+fn run_gc_every_step(src: &str) -> RunResult {
+    use abra_core::vm::{Runtime, RuntimeStatusKind, verif_gc};
+    let r = std::panic::catch_unwind(std::panic::AssertUnwindSafe(|| {
+        let program = match abra_core::compile_bytecode("main.abra", provider(src, &[])) {
+            Ok(p) => p,
+            Err(e) => return RunResult { outcome: Outcome::Rejected(e.to_string()), out: String::new(), err_text: String::new(), steps: 0 },
+        };
+        verif_gc::set_manual(true);
+        let mut rt = Runtime::new(program);
+        let mut out = String::new();
+        let mut steps = 0u64;
+        let mut err_text = String::new();
+        let outcome = loop {
+            let status = rt.run_n_steps(1);
+            steps += status.steps_consumed as u64;
+            match &status.kind {
+                RuntimeStatusKind::Done => break Outcome::Done,
+                RuntimeStatusKind::MainThreadError(e) => break Outcome::Error(error_kind(&e.to_string())),
+                _ => {}
+            }
+            service_host(&mut rt, &mut out);
+            for t in rt.iter_threads_mut() {
+                // one full cycle: leave Idle, then step until Idle again
+                verif_gc::step(t);
+                let mut guard = 0;
+                let mut snap = verif_gc::snapshot(t);
+                while !snap.starts_with("phase=i") && guard < 100_000 {
+                    verif_gc::step(t);
+                    guard += 1;
+                    snap = verif_gc::snapshot(t);
+                }
+                // after the collection every root (value stack, string_operand1/2) must still be a heap object
+                if err_text.is_empty() {
+                    if let Some(d) = dangling_root(&snap) {
+                        err_text = format!("dangling root {d} after the collection that followed VM step {steps}");
+                    }
+                }
+            }
+            if steps > 2_000_000 {
+                break Outcome::Timeout;
+            }
+        };
+        verif_gc::set_manual(false);
+        RunResult { outcome, out, err_text, steps }
+    }));
+    abra_core::vm::verif_gc::set_manual(false);
+    match r {
+        Ok(r) => r,
+        Err(p) => RunResult { outcome: Outcome::Crash(panic_msg(p)), out: String::new(), err_text: String::new(), steps: 0 },
+    }
+}
+
+/// `phase=.. heap=<addr>:<mark>:<kids>;.. roots=<a,..> gray=..` -> a root that is not in the heap list
+fn dangling_root(snap: &str) -> Option<String> {
+    let heap = snap.split(" heap=").nth(1)?.split(" roots=").next()?;
+    let roots = snap.split(" roots=").nth(1)?.split(" gray=").next()?;
+    let addrs: std::collections::HashSet<&str> = heap.split(';').filter(|x| !x.is_empty()).map(|o| o.split(':').next().unwrap()).collect();
+    roots.split(',').filter(|x| !x.is_empty()).find(|r| !addrs.contains(r)).map(|x| x.to_string())
 }
 
 fn bit(b: bool) -> char {
@@ -260,7 +333,25 @@ fn main() {
             });
         }
     }
+    // a complete collection between every two VM steps (budget 1), operands built at run time
+    let n_full = if ctx.quick() { 70 } else { 600 };
+    for i in 0..n_full {
+        let (a, b, class) = &ps[(i * 7919) % ps.len()];
+        if a.len() + b.len() > 40 { continue; }
+        let src = program("tmp", a, b, &mut ctx.rng);
+        jobs.push(Job {
+            req: format!("str ops 1 {} {} #gcfull", hex(a.as_bytes()), hex(b.as_bytes())),
+            src, form: "gcfull", class, k: 1, a: a.clone(), b: b.clone(),
+        });
+    }
     let results = par_map(&jobs, |j| {
+        if j.form == "gcfull" {
+            let r = run_gc_every_step(&j.src);
+            if !r.err_text.is_empty() {
+                return format!("unsafe {}", r.err_text);
+            }
+            return render("heap", &r);
+        }
         let r = run_program_opts(&j.src, &RunOpts { budgets: vec![j.k], max_steps: 20_000_000, files: vec![] });
         render(j.form, &r)
     });
